@@ -142,6 +142,7 @@ def run_property(prop, tier="quick", root="/repo/verde", overlay=None, write=Tru
             _common.falsy_defaults(ctx)
             _common.chunked_loops(ctx)
             _common.foreign_dtype_casts(ctx)
+            _common.lossy_cache_reads(ctx)
             _common.popped_keywords(ctx)
             _common.in_place_cannot_broadcast(ctx)
             _common.aliased_results(ctx)
